@@ -170,6 +170,34 @@ func c10R2(c *core.Ctx, rule string) {
 			okE = isW && a[1] == g.Params[1]
 		}
 		c.Check(okE, rule, fnName(g)+":appends to the queue", g.Pos(), "enqueue appends the bytes to writer", "enqueue does not append exactly its argument to the queue")
+		if okE {
+			always, w := eng.MustPass(g, nil, func(i ssa.Instruction) bool { return i == ws[0].(ssa.Instruction) })
+			c.Check(always, rule, fnName(g)+":copies on every path", g.Pos(), "every enqueue copies the bytes into the queue", fmt.Sprintf("a path through enqueue does not copy the caller's bytes into the queue (e.g. it adopts the slice): the encoders hand out a pooled buffer that is reused as soon as Write returns, so queued packets are overwritten: %v", w))
+		}
+	}
+	// the queue object is never replaced or re-pointed at caller memory
+	for _, h := range c.P.ScopeFuncs() {
+		if pkgPathOf(h) != M+"network/listener" {
+			continue
+		}
+		eng.Instrs(h, func(in ssa.Instruction) {
+			st, ok := in.(*ssa.Store)
+			if !ok {
+				return
+			}
+			fa, ok := st.Addr.(*ssa.FieldAddr)
+			if !ok {
+				return
+			}
+			owner, fl, base, ok := eng.FieldOf(fa)
+			if !ok || fl != "writer" || !strings.HasSuffix(owner, "listener.Conn") {
+				return
+			}
+			if _, fresh := base.(*ssa.Alloc); fresh {
+				return
+			}
+			c.Fail(rule, fnName(h)+":replaces the write queue", st.Pos(), "Conn.writer is assigned as a whole ("+eng.Describe(st.Val)+"): a buffer built over caller memory (bytes.NewBuffer(p)) aliases the pooled packet buffers, and bytes queued meanwhile are lost")
+		})
 	}
 }
 
